@@ -12,6 +12,9 @@ def base_type(type_str):
   return type_str.split(':', 1)[0] if isinstance(type_str, str) else ""
 
 
+REMOVALS = ('RemoveRecord', 'BulkRemoveRecord', 'RemoveTable', 'RemoveColumn', 'RemoveView',
+            'RemoveViewSection')
+
 BULK = {'AddRecord': 'BulkAddRecord', 'UpdateRecord': 'BulkUpdateRecord',
         'RemoveRecord': 'BulkRemoveRecord'}
 
@@ -84,12 +87,16 @@ class Recorder(object):
     fetched = adapter.fetch_all(eng)
     for tid, (rows, cols) in fetched.items():
       sc = eng.schema.get(tid)
-      base = {}
+      base, ref, isf = {}, {}, {}
       for cid in cols:
         c = sc.columns.get(cid) if sc else None
-        base[cid] = base_type(c.type) if c else "Any"
+        typ = c.type if c else "Any"
+        base[cid] = base_type(typ)
+        # judgement-free split of "Ref:T" / "RefList:T" at the first ':'
+        ref[cid] = typ.split(':', 1)[1] if (':' in typ and base[cid] in ('Ref', 'RefList')) else ""
+        isf[cid] = bool(c.isFormula) if c else False
       st[tid] = {"rows": rows, "cols": {c: [self.tt.tok(v) for v in vals] for c, vals in cols.items()},
-                 "base": base}
+                 "base": base, "ref": ref, "isf": isf}
     return st
 
   def project_schema(self, eng=None):
@@ -131,7 +138,9 @@ class Recorder(object):
   def bundle(self, uas, tag="ua", of=0, clause="", user=None, note=None):
     """Apply one bundle; returns (event, reply or None, exception or None)."""
     ev = {"k": "B", "tag": tag, "of": of, "clause": clause, "stored": [], "direct": [], "undo": [],
-          "ret": "", "uas": note if note is not None else [u[0] for u in uas]}
+          "ret": "", "uas": note if note is not None else [u[0] for u in uas],
+          # judgement-free fact about the request: every user action is a removal by name
+          "onlyrm": bool(uas) and all(isinstance(u[0], str) and u[0] in REMOVALS for u in uas)}
     self.full.append(uas)
     try:
       reply = adapter.apply(self.eng, uas, user)
@@ -155,7 +164,7 @@ class Recorder(object):
     An event that compares a sibling engine with this one and does not advance the document:
     Reopen (C07), Rebuild (C05), a peer process (C30).  `delta` = the peer's tables that differ.
     """
-    ev = {"k": "P", "tag": tag, "of": 0, "clause": clause, "qclause": qclause,
+    ev = {"k": "P", "tag": tag, "of": 0, "clause": clause, "qclause": qclause, "onlyrm": False,
           "stored": [encode_action(a, self.tt) for a in stored], "direct": [], "undo": [],
           "ret": "", "uas": note or [tag]}
     tables = {t: v for t, v in peer_state.items() if self.state.get(t) != v}
